@@ -2,10 +2,11 @@
 
 use crate::engine::Property;
 
+pub mod c12;
 pub mod c28;
 
 pub fn all() -> Vec<&'static dyn Property> {
-    vec![&c28::C28]
+    vec![&c12::C12, &c28::C28]
 }
 
 pub fn find(id: &str) -> Option<&'static dyn Property> {
